@@ -658,7 +658,7 @@ def params(tier):
     if tier == 'quick':
         return {'examples': 220, 'wall': 80, 'case_timeout': 60}
 
-    return {'examples': 5000, 'wall': 1500, 'case_timeout': 120}
+    return {'examples': 5000, 'wall': 600, 'case_timeout': 120}
 
 
 def floors(tier):
